@@ -286,6 +286,48 @@ fn exec_op(
             end_op(run, tid, idx, start, res, None, None);
             Ok(())
         }
+        Op::FreshThreads { kind } => {
+            let start = begin_op(run, tid, idx, None, 0);
+            thread_local! {
+                static FIXTURE: std::cell::RefCell<Option<Unimock>> = const { std::cell::RefCell::new(None) };
+            }
+            let res = match kind {
+                0 | 1 => {
+                    let verify = *kind == 1;
+                    // thread A builds the mock and is gone before thread B even exists
+                    let built = std::thread::spawn(|| Unimock::new(())).join();
+                    match built {
+                        Err(p) => panic_text(p.as_ref()),
+                        Ok(u) => {
+                            let r = std::thread::spawn(move || {
+                                catch_unwind(AssertUnwindSafe(move || if verify { u.verify() } else { drop(u) })).is_err()
+                            })
+                            .join();
+                            match r {
+                                Ok(true) => OpResult::Done,
+                                Ok(false) => OpResult::Info("verified on a thread that did not create it, without a panic".into()),
+                                Err(p) => panic_text(p.as_ref()),
+                            }
+                        }
+                    }
+                }
+                _ => {
+                    let r = std::thread::spawn(|| {
+                        // the fixture's thread-local exists before the mock does
+                        FIXTURE.with(|f| f.borrow().is_none());
+                        let u = Unimock::new(());
+                        FIXTURE.with(|f| *f.borrow_mut() = Some(u));
+                    })
+                    .join();
+                    match r {
+                        Ok(()) => OpResult::Done,
+                        Err(p) => panic_text(p.as_ref()),
+                    }
+                }
+            };
+            end_op(run, tid, idx, start, res, None, None);
+            Ok(())
+        }
         Op::CloneStorm { slot, n } => {
             let mock = mock_of(run, *slot);
             let start = begin_op(run, tid, idx, None, mock);
